@@ -268,12 +268,18 @@ func getInputTensorsForNode(names []string, tensors Tensors) ([]tensor.Tensor, e
 func setOutputTensorsOfNode(
 	names []string, outputTensors []tensor.Tensor, tensors Tensors,
 ) error {
-	if len(names) != len(outputTensors) {
+	// Trailing outputs of an operator may be left out by the node, and an empty
+	// name marks an output that the graph does not use.
+	if len(names) > len(outputTensors) {
 		return ErrModel("could not set output tensor")
 	}
 
-	for i, tensor := range outputTensors {
-		tensors[names[i]] = tensor
+	for i, name := range names {
+		if name == "" {
+			continue
+		}
+
+		tensors[name] = outputTensors[i]
 	}
 
 	return nil
